@@ -19,7 +19,8 @@ def h_get(ex, st, node, args):
     for s, is_none in ex.branch(st, none):
         s.env["pos"] = pos + 1
         row = Arr(st.ghost_env["sol_table"].obj, [("fix", pos), ("rng", 0, st.ghost_env["V"])])
-        out.append((s, (proc, None if is_none else row, pos)))
+        stats = Arr(st.ghost_env["stats_table"].obj, [("fix", pos), ("rng", 0, 13)])
+        out.append((s, (proc, None if is_none else row, stats)))
     return out
 
 
@@ -42,7 +43,7 @@ CNT = "count(p, 0, N, marker_pos[p] >= pos)"
 INV = [
     ("C11.pos", "0 <= pos and pos <= M"),
     ("C11.pending", f"nb == {CNT}"),
-    ("C11.stats", "forall(p, 0, N, implies(marker_pos[p] < pos, self.statistics[p] == marker_pos[p]))"),
+    ("C11.stats", "forall(p, 0, N, implies(marker_pos[p] < pos, forall(k, 0, 13, self.statistics[p, k] == stats_table[marker_pos[p], k])))"),
 ]
 STEP_HINTS = ["lemma_sum_diff_one(p, 0, N, ite(marker_pos[p] >= pos, 1, 0), ite(marker_pos[p] >= it0(pos), 1, 0), msg_proc[it0(pos)])"]
 INIT_HINTS = ["lemma_sum_bounds(p, 0, N, ite(marker_pos[p] >= pos, 1, 0), 1, 1)"]
@@ -51,11 +52,11 @@ EXIT_HINTS = ["lemma_sum_zero(p, 0, N, ite(marker_pos[p] >= pos, 1, 0))"]
 COMMON_ENS = [
     ("C11.lastmsg", "implies(M > 0, marker_pos[msg_proc[M - 1]] >= M - 1)"),
     ("C11.consumed", "pos == M"),
-    ("C11.final_stats", "forall(p, 0, N, self.statistics[p] == marker_pos[p])"),
+    ("C11.final_stats", "forall(p, 0, N, forall(k, 0, 13, self.statistics[p, k] == stats_table[marker_pos[p], k]))"),
 ]
 
-contract(MP + "solve", types={"self": {"solvers": "list[N]", "statistics": "i64[N]"}},
-    ghost={"msg_proc": "int[M]", "msg_none": "bool[M]", "marker_pos": "int[N]", "yield_idx": "int[M]", "sol_table": "int[M,V]"}, ghost_init={"pos": 0, "yielded": "emptylist"},
+contract(MP + "solve", types={"self": {"solvers": "list[N]", "statistics": "i64[N,13]"}},
+    ghost={"msg_proc": "int[M]", "msg_none": "bool[M]", "marker_pos": "int[N]", "yield_idx": "int[M]", "sol_table": "int[M,V]", "stats_table": "int[M,13]"}, ghost_init={"pos": 0, "yielded": "emptylist"},
     requires=WF, env={"solutions.get": h_get, "yield": h_yield}, result="none", props=["C11", "C17", "C18"],
     loops={1: dict(index="i", fingerprint="for enumerate(self.solvers)", invariant=[("C11.nomsg", "pos == 0 and len(yielded) == 0")]),
            2: dict(fingerprint="while nb > 0", also_modifies=["pos", "yielded", "yield_idx"], decreases="M - pos", init_hints=INIT_HINTS,
@@ -94,8 +95,8 @@ for variant, iface, cmp in (("min", "iface:Lt", "<="), ("max", "iface:Gt", ">=")
         ("C11.best", f"implies(best_solution is not None, 0 <= rowidx(best_solution) and rowidx(best_solution) < pos and not msg_none[rowidx(best_solution)] and forall(j, 0, pos, implies(not msg_none[j], best_solution[variable_idx] {cmp} sol_table[j, variable_idx])))"),
     ]
     contract(MP + "optimize", variant=variant,
-        types={"self": {"solvers": "list[N]", "statistics": "i64[N]"}, "variable_idx": "int", "proc_func_name": "opaque", "comparison_func": "opaque"},
-        ghost={"msg_proc": "int[M]", "msg_none": "bool[M]", "marker_pos": "int[N]", "sol_table": "int[M,V]"}, ghost_init={"pos": 0},
+        types={"self": {"solvers": "list[N]", "statistics": "i64[N,13]"}, "variable_idx": "int", "proc_func_name": "opaque", "comparison_func": "opaque"},
+        ghost={"msg_proc": "int[M]", "msg_none": "bool[M]", "marker_pos": "int[N]", "sol_table": "int[M,V]", "stats_table": "int[M,13]"}, ghost_init={"pos": 0},
         requires=WF + ["0 <= variable_idx and variable_idx < V"], env={"solutions.get": h_get}, calls={"comparison_func": iface},
         result="none", props=["C11", "C17", "C18", "C03"],
         loops={1: dict(index="i", fingerprint="for enumerate(self.solvers)", invariant=[("C11.nomsg", "pos == 0")]),
@@ -107,3 +108,11 @@ for variant, iface, cmp in (("min", "iface:Lt", "<="), ("max", "iface:Gt", ">=")
             ("C11.optimum", f"implies(result is not None, not msg_none[rowidx(result)] and forall(j, 0, M, implies(not msg_none[j], result[variable_idx] {cmp} sol_table[j, variable_idx])))"),
         ],
         tags={"C11": ["C11", "C03"], "wf": ["C11"]}, arities=[])
+
+
+MPM = "nucs/solvers/multiprocessing_solver.py::"
+contract(MPM + "sum_stats", types={"stats": "i64[N,13]", "index": "int"}, props=["C11", "C17"], modifies=[],
+    requires=["0 <= index and index < 13"], ensures=[("C17.sum", "result == sum(p, 0, N, stats[p, index])")], tags={"C17": ["C17", "C11"]}, arities=[{"N": 2}])
+contract(MPM + "max_stats", types={"stats": "i64[N,13]", "index": "int"}, props=["C11", "C17"], modifies=[],
+    requires=["0 <= index and index < 13", "N >= 1"],
+    ensures=[("C17.max", "forall(p, 0, N, stats[p, index] <= result) and exists(p, 0, N, stats[p, index] == result)")], tags={"C17": ["C17", "C11"]}, arities=[{"N": 2}])
